@@ -506,7 +506,10 @@ class TopCollector(ScoredCollector):
                 items.pop(i)
                 # Restore the heap invariant
                 heapify(items)
-                self.minscore = items[0][0] if items else 0
+                # The list is no longer full, so until it fills up again no
+                # score is too low to be collected (the lowest score of a
+                # partial list is not a threshold)
+                self.minscore = 0
                 return
 
     def results(self):
